@@ -7,7 +7,12 @@
     extracted model may keep running the plain one. The invariant: every remembered configuration has no accepting
     run ([DeadOK]); it is established from a failed exploration by completeness of the plain search
     ([CompleteProofs.apply_complete]) and fuel independence ([SimProofs.apply_mono]), and used through soundness
-    ([ApplyProofs.apply_sound]). *)
+    ([ApplyProofs.apply_sound]).
+    How the library stores that memory changed twice after D10 (D13: the key is only built once something has failed;
+    D15: a configuration is kept as the slice of remaining arguments itself, in buckets found through a hash, and
+    membership is decided by comparing the arguments): neither changes WHICH configurations are looked up, found or
+    recorded, which is all that [mem_key] and the list [dead] stand for here — membership up to equality of
+    (state, remaining arguments, options-ended flag). *)
 From MowCli Require Import Base Nfa Matchers Apply ApplyProofs TermProofs CompleteProofs SimProofs.
 
 Definition ckey := (nat * list str * bool)%type.
